@@ -29,7 +29,7 @@ REQUIRED = {"post:calculate_posterior": 100, "cases:wide": 20, "cases:tall": 20,
 
 def jobs(tier, seed):
     n_jobs = 16 if tier == "quick" else 32
-    return [{"name": f"inv-{j}", "seed": seed, "j": j, "n_cases": 20 if tier == "quick" else 160} for j in range(n_jobs)]
+    return [{"name": f"inv-{j}", "seed": seed, "j": j, "n_cases": 80 if tier == "quick" else 500} for j in range(n_jobs)]
 
 
 def run_job(job, rec):
